@@ -278,3 +278,10 @@ pub fn adf_fms(tts: &[TT], widx: u64) -> Vec<Fm> {
 pub fn adf_text(tts: &[TT], widx: u64) -> String {
     adf_text_fm(&adf_fms(tts, widx), &names(tts.len()))
 }
+
+
+/// Feeds a generated text to a parser. The ADF without statements has no text (the parser rejects empty input): it is
+/// the ADF made from a parser that has parsed nothing.
+pub fn parse_into<'a>(parser: &'a adf_bdd::parser::AdfParser<'a>, text: &'a str) -> bool {
+    text.is_empty() || parser.parse()(text).is_ok()
+}
